@@ -1,4 +1,4 @@
-import BiotiteModel.Proofs.C18Grid
+import BiotiteModel.Proofs.C18Header
 import BiotiteModel.Gen.C18
 /-!
 # C18 — property theorems (MOL/SDF files; tables of the RDKit bridge)
@@ -103,10 +103,6 @@ theorem C18_rdkit_tables :
   decide
 
 /-! ## Version selection -/
-
-theorem isV2000Compatible_iff (a b : Nat) : isV2000Compatible a b = true ↔ a < 1000 ∧ b < 1000 := by
-  unfold isV2000Compatible v2000MaxCount
-  rw [Bool.and_eq_true, decide_eq_true_iff, decide_eq_true_iff]
 
 /-- Counts that do not fit three columns select V3000, or raise `ValueError` when V2000 was asked
 for; a V2000 table is only ever written for fewer than 1000 atoms and bonds. -/
@@ -315,27 +311,8 @@ sign — and the same bonds in the same order, every bond type the bond block ca
 and the others as the default type (`Mol.rt`, `C18_bond_table`). -/
 theorem C18_ctab_roundtrip_v2000 (m : Mol) (d : Nat) (ls : List Line) (hw : WFMol m)
     (hn : m.atoms.length < 1000) (hm : m.bonds.length < 1000) (h : writeV2000 m d = .ok ls) :
-    ∃ dc, codeOfBond d = some dc ∧ readCtab ls = .ok (m.rt dc) := by
-  unfold writeV2000 at h
-  split at h
-  · cases h
-  · split at h
-    · cases h
-    · rename_i dc hdc
-      cases h
-      refine ⟨dc, hdc, ?_⟩
-      have hv := (counts_read m.atoms.length m.bonds.length hn hm).2.2
-      have e : [countsLineV2000 m.atoms.length m.bonds.length] ++ m.atoms.map atomLineV2000
-            ++ m.bonds.map (bondLineV2000 dc) ++ chargeLines m ++ [mEnd]
-          = countsLineV2000 m.atoms.length m.bonds.length ::
-            (m.atoms.map atomLineV2000 ++ (m.bonds.map (bondLineV2000 dc) ++ (chargeLines m ++ [mEnd]))) := by
-        simp [List.append_assoc]
-      rw [e]
-      unfold readCtab
-      simp only [hv]
-      have : ("V2000".toList == "V2000".toList) = true := by decide
-      simp only [this, if_true]
-      exact readV2000_write m dc (codeOfBond_lt hdc) hw hn hm
+    ∃ dc, codeOfBond d = some dc ∧ readCtab ls = .ok (m.rt dc) :=
+  ctab_roundtrip_v2000 m d ls hw hn hm h
 
 /-- **CTAB round trip, V3000.**  For a well-formed molecule with at least one atom (an empty
 ATOM block is rejected by the reader) and *any* number of atoms and bonds, reading the V3000
@@ -343,23 +320,8 @@ table that was written gives back the same atoms in the same order and the same 
 the `M  V30` filter, the block scanner, `split()`, the `CHG=` property and the atom-index map. -/
 theorem C18_ctab_roundtrip_v3000 (m : Mol) (d : Nat) (ls : List Line) (hw : WFMol m)
     (hne : m.atoms ≠ []) (h : writeV3000 m d = .ok ls) :
-    ∃ dc, codeOfBond d = some dc ∧ readCtab ls = .ok (m.rt dc) := by
-  unfold writeV3000 at h
-  split at h
-  · cases h
-  · split at h
-    · cases h
-    · rename_i dc hdc
-      cases h
-      refine ⟨dc, hdc, ?_⟩
-      have hv : getVersion compatLine = "V3000".toList := by decide
-      unfold readCtab
-      simp only [List.singleton_append, List.cons_append, hv]
-      have h1 : ("V3000".toList == "V2000".toList) = false := by decide
-      have h2 : ("V3000".toList == "V3000".toList) = true := by decide
-      simp only [h1, h2, Bool.false_eq_true, if_false, if_true]
-      have := readV3000_write m dc hw hne
-      simpa only [List.singleton_append, List.cons_append] using this
+    ∃ dc, codeOfBond d = some dc ∧ readCtab ls = .ok (m.rt dc) :=
+  ctab_roundtrip_v3000 m d ls hw hne h
 
 /-- **CTAB round trip.**  Whatever `write_structure_to_ctab` returns for a well-formed, non-empty
 molecule — V2000 or V3000, chosen automatically or explicitly — reads back as the molecule that
@@ -367,23 +329,55 @@ was written (`Mol.rt`: same atoms, order, elements, charges, coordinates to 4 de
 with every expressible type unchanged). -/
 theorem C18_ctab_roundtrip (m : Mol) (d : Nat) (v : Version) (ls : List Line) (hw : WFMol m)
     (hne : m.atoms ≠ []) (h : writeCtab m d v = .ok ls) :
-    ∃ dc, codeOfBond d = some dc ∧ readCtab ls = .ok (m.rt dc) := by
-  cases v with
-  | auto =>
-    by_cases hc : isV2000Compatible m.atoms.length m.bonds.length = true
-    · simp only [writeCtab, hc, if_true] at h
-      have hb := (isV2000Compatible_iff _ _).mp hc
-      exact C18_ctab_roundtrip_v2000 m d ls hw hb.1 hb.2 h
-    · simp only [writeCtab, hc] at h
-      exact C18_ctab_roundtrip_v3000 m d ls hw hne h
-  | v2000 =>
-    by_cases hc : isV2000Compatible m.atoms.length m.bonds.length = true
-    · simp only [writeCtab, hc] at h
-      have hb := (isV2000Compatible_iff _ _).mp hc
-      exact C18_ctab_roundtrip_v2000 m d ls hw hb.1 hb.2 (by simpa using h)
-    · simp [writeCtab, hc] at h
-  | v3000 => exact C18_ctab_roundtrip_v3000 m d ls hw hne h
-  | unknown => simp [writeCtab] at h
+    ∃ dc, codeOfBond d = some dc ∧ readCtab ls = .ok (m.rt dc) :=
+  ctab_roundtrip m d v ls hw hne h
+
+/-! ## Header -/
+
+/-- Column layout of the second header line in the current `header.py`: the slices
+`Header.deserialize` takes are exactly the consecutive `>w.w` fields `Header.serialize` prints
+(width = precision: padded *and* truncated to the column), 52 columns in total, in the order
+initials, program, time stamp, dimensions, scaling factors, energy, registry number; the time
+stamp is `%m%d%y%H%M` (ten digits) and the name limit is 80 — the constants of the model. -/
+theorem C18_gen_header :
+    Gen.C18.headerSlices = [(0, 2), (2, 10), (10, 20), (20, 22), (22, 34), (34, 46), (46, 52)] ∧
+    fieldSpans 0 (Gen.C18.headerFields.map fun f => (">", f.1)) = Gen.C18.headerSlices ∧
+    (∀ f ∈ Gen.C18.headerFields, f.1 = f.2) ∧
+    Gen.C18.headerDateFormat = "%m%d%y%H%M" ∧ Gen.C18.headerNameLimit = 80 := by
+  decide
+
+/-- **Header round trip.**  Every header the three lines can express (`ValidHeader`: name ≤ 80
+characters, each field within its columns, no field with a leading or trailing blank, time stamp a
+valid date with minute resolution and two-digit year) is serialised without error into a name
+line, a 52-column line and a comment line, and read back unchanged, field by field. -/
+theorem C18_header_roundtrip (h : Header) (hv : ValidHeader h) :
+    ∃ l2, h.serialize = .ok [h.molName, l2, h.comments] ∧ l2.length = 52 ∧
+      Header.deserialize [h.molName, l2, h.comments] = .ok h := by
+  exact ⟨headerLine2 h, header_serialize_eq h hv, headerLine2_length h, header_deserialize_lines h hv []⟩
+
+/-- The second line is 52 columns wide whatever the fields contain (over-long fields are cut, not
+shifted), and a name longer than 80 characters is refused. -/
+theorem C18_header_columns (h : Header) :
+    (h.molName.length ≤ 80 → ∃ l2, h.serialize = .ok [h.molName, l2, h.comments] ∧ l2.length = 52) ∧
+    (80 < h.molName.length → h.serialize = .error .valueError) := by
+  constructor
+  · intro hl
+    have : ¬ h.molName.length > 80 := by omega
+    refine ⟨headerLine2 h, by simp [Header.serialize, this, headerLine2], headerLine2_length h⟩
+  · intro hl
+    simp [Header.serialize, hl]
+
+/-- What the format cannot express, as the code behaves (both replayed on the real code by the
+corpus cases `header-limits`): a field longer than its columns is silently cut (`ABCDEFGHIJ` →
+`ABCDEFGH`, documented in `header.py`), and blanks around a field or the name are lost
+(`" a "` → `a`) because fields are padded with blanks and read with `strip()`.  These are limits
+of the fixed-column format, stated here so that `ValidHeader` is seen to be necessary. -/
+theorem C18_header_truncation_defect :
+    (Header.serialize ⟨[], [], "ABCDEFGHIJ".toList, none, [], [], [], [], []⟩).bind Header.deserialize
+      = .ok ⟨[], [], "ABCDEFGH".toList, none, [], [], [], [], []⟩ ∧
+    (Header.serialize ⟨" a ".toList, [], [], none, [], [], [], [], " c".toList⟩).bind Header.deserialize
+      = .ok ⟨"a".toList, [], [], none, [], [], [], [], "c".toList⟩ := by
+  decide
 
 /-! ## Non-vacuity and concrete round trips (evaluated by the kernel)
 
@@ -438,5 +432,12 @@ example : MdOk exMd ∧ (exMd.map (·.1)).Nodup := by
     exact ⟨by decide, by intro c t h; cases h; decide, by intro c t h; cases h; decide, by decide⟩
 example : let recs := [["a".toList, "x".toList], [" b ".toList, "M  END".toList]]
     recs ≠ [] ∧ (∀ r ∈ recs, ∀ l ∈ r, startsWith delim l = false) ∧ (recs.map recName).Nodup := by decide
+
+def exHeader : Header :=
+  ⟨"M  END of (+)-x".toList, "AB".toList, "prog 1.0".toList, some (2, 29, 24, 23, 59), "3D".toList,
+   "1   1.00000".toList, "-12.5".toList, "123456".toList, "a comment, with blanks".toList⟩
+example : ValidHeader exHeader := by decide
+example : exHeader.serialize.toOption.map (·.map String.ofList) =
+    some ["M  END of (+)-x", "ABprog 1.002292423593D 1   1.00000       -12.5123456", "a comment, with blanks"] := by decide
 
 end BiotiteModel.C18
